@@ -45,4 +45,11 @@ PROPS = {
         "each run = one seeded call with generated request-header, response-header and response-trailer multimaps (multi-valued keys, -Bin keys) "
         "x {success, error before first message, error after messages}; distinct = distinct scheduler-log hash among runs with >= 2 candidates",
         4000, 300000),
+    "C14": e2e(
+        "each run = one seeded client program over {Send, CloseRequest, Receive, CloseResponse, cancel} (split sender/receiver tasks for bidi) "
+        "against a seeded handler program {receive i, send j, drain or not, return nil|error} x protocols x HTTP versions x windows down to 1 byte "
+        "x slow-point sets at the library's 17 yield points (none, every single point, every pair, random subsets); checked: bounded termination "
+        "(hang = no enabled operation for 120 s of fake time), end-of-request visibility, Send-after-finish errors, outcome equality, sticky Receive "
+        "errors, goroutine leaks (stack scan of the bubble) and response-body Close; distinct = distinct scheduler-log hash among runs with >= 2 candidates",
+        4000, 300000),
 }
